@@ -10,9 +10,22 @@ The model is of the code **after** the proposed fixes
   * fixes/C02-wishlist-interval.patch             (`_on_wish_list_interval` does not await the cancelled task).
 
 Time is counted in whole seconds (all timeouts of the code are `int`s).  One `Op` is what the code does
-between two suspension points when listeners and the network stub do not suspend: API calls and message
-handlers run atomically; everything that asyncio defers to "the next loop iteration" (a cancelled task
-finishing, a due `sleep` waking its task, done-callbacks) happens in `settle`.
+between two suspension points: API calls and message handlers run atomically; everything that asyncio defers to
+"the next loop iteration" (a cancelled task finishing, a due `sleep` waking its task, done-callbacks) happens in
+`settle` (the loop runs until nothing is ready) or, one loop iteration at a time, in `tick`.
+
+Two refinements of that picture are part of the model (round 4):
+  * **loop iterations around an expiry** (`Op.tick`).  A `Timer.runner` task (tasks.py:99-101) goes through
+    *created* (`create_task` scheduled its first step) → *sleeping* (`asyncio.sleep(timeout)` registered its
+    wake-up for `deadline`) → *woken* (the sleep is over, the task's next step is scheduled) → callback.  Every
+    phase change takes one loop iteration; `task.cancel()` in ANY phase before the callback makes the task end
+    with `CancelledError` at its next step, without running the callback.  Any `Op` may be placed between two
+    `tick`s, i.e. in any loop iteration around the expiry.
+  * **the set-up of a request** (`Op.gate`, `Op.sendDone`, `Op.cancelCall`).  `search*` and `_wishlist_job` draw
+    the ticket, then `await self._network.send_server_messages(...)`, and only when that returns create the
+    `SearchRequest`, register it, start its Timer and emit `SearchRequestSentEvent` (manager.py:124-134,
+    289-309, 321-331).  While `gated`, the send suspends: the set-up is `pending` until the network lets the send
+    return or raise, or until the owning task (the caller, the wishlist task) is cancelled.
 -/
 namespace AioslskVerif.Search
 open AioslskVerif.Generated.Search
@@ -53,6 +66,19 @@ structure TTask where
   deadline : Option Nat     -- loop time at which `asyncio.sleep(timeout)` returns; `none`: the task has not
                             -- taken its first step yet (`create_task` only schedules it)
   cancelled : Bool          -- `task.cancel()` was called; the task finishes at the next loop iteration
+  woken : Bool              -- the sleep is over (its future is resolved) and the task's next step is scheduled:
+                            -- it goes on to the callback in the next loop iteration (unless cancelled before)
+deriving Repr, DecidableEq
+
+/-- A request that is being set up: its ticket is drawn, `send_server_messages` has not handed control back to
+`search*` / `_wishlist_job` yet (manager.py:124-128, 289-293).  No `SearchRequest` object exists, nothing is
+registered. -/
+structure Setup where
+  rid : Nat                 -- ghost: draw number (the `rid` of the request it will become)
+  ticket : Nat
+  kind : Kind               -- `.wishlist`: the owner is the wishlist task; otherwise a caller of `search*`
+  outcome : Option Bool     -- `none`: the send is blocked; `some true`: it returned; `some false`: it raised, or
+                            -- the owner was cancelled — the owner sees it at its next step (next loop iteration)
 deriving Repr, DecidableEq
 
 inductive Obs
@@ -63,6 +89,7 @@ inductive Obs
   | callerErr                             -- KeyError raised to the caller of `remove_request`
   | noReq                                 -- harness: no registered request with that ticket (nothing called)
   | noTimer                               -- harness: the request has no Timer (nothing called)
+  | noSetup                               -- harness: no such set-up is in progress (nothing called)
   | clobber (old new : Nat)               -- ghost: `requests[ticket] = request` replaced live request `old`
 deriving Repr, DecidableEq
 
@@ -75,12 +102,19 @@ structure State where
   requests : List Req        -- `SearchManager.requests` (dict keyed by ticket)
   tasks : List TTask         -- timer tasks that have not finished yet
   wlInterval : Option Nat    -- `self.wishlist_interval`
-  wlNext : Option Nat        -- wishlist BackgroundTask: loop time of its next round; `none` = not running
+  wlNext : Option Nat        -- wishlist BackgroundTask: loop time of its next round; `none` = not running, or
+                             -- in the middle of a round (`wlRound`)
+  wlWoken : Bool             -- the wishlist task's next step is scheduled (just created, or its sleep is over): it
+                             -- runs its round in the next loop iteration
+  wlRound : Option Nat       -- the wishlist task is inside `_wishlist_job`, suspended in the send of one item
+                             -- (a `.wishlist` entry of `pending`); this many enabled items come after it
+  gated : Bool               -- environment: `send_server_messages` suspends until the network answers
+  pending : List Setup       -- requests being set up (ticket drawn, send not yet returned to its caller)
 deriving Repr
 
 def init (cfg : Cfg) : State :=
   { cfg := cfg, now := 0, gen := cfg.initial, draws := 0, nextTask := 0, requests := [], tasks := [],
-    wlInterval := none, wlNext := none }
+    wlInterval := none, wlNext := none, wlWoken := false, wlRound := none, gated := false, pending := [] }
 
 inductive Op
   | search (k : Kind)            -- search / search_room / search_user                       (manager.py:114-183)
@@ -92,6 +126,10 @@ inductive Op
   | timerReschedule (tk n : Nat) -- requests[tk].timer.reschedule(n)                         (tasks.py:103-107)
   | jump (d : Nat)               -- the loop clock advances by d while nothing of the library runs
   | settle                       -- the loop runs until nothing is ready or due
+  | tick                         -- the loop runs ONE iteration (every scheduled step / due wake-up, once)
+  | gate (b : Bool)              -- from now on `send_server_messages` suspends (`true`) / returns at once (`false`)
+  | sendDone (tk : Nat) (ok : Bool)  -- the blocked send of the set-up with ticket `tk` returns (`ok`) / raises
+  | cancelCall (tk : Nat)        -- the caller's task suspended in `search*` (ticket `tk`) is cancelled
 deriving Repr, DecidableEq
 
 /-! ### Timer -/
@@ -114,7 +152,7 @@ def timerCancel (s : State) (rid : Nat) (h : Option Nat) : State :=
 def timerStart (s : State) (rid tk timeout : Nat) : State :=
   { s with nextTask := s.nextTask + 1,
            tasks := s.tasks ++ [{ id := s.nextTask, rid := rid, ticket := tk, timeout := timeout,
-                                  deadline := none, cancelled := false }],
+                                  deadline := none, cancelled := false, woken := false }],
            requests := setHandle s.requests rid (some s.nextTask) }
 
 /-! ### Requests -/
@@ -194,27 +232,146 @@ def settleTimers (s : State) : State × List Obs :=
   ({ r.1 with tasks := ts.filter (fun t => !isFinishing s.now t),
               requests := r.1.requests.map (unsetDone (ts.filter (isFinishing s.now))) }, r.2)
 
+/-! ### The set-up of a request, suspended in `send_server_messages` -/
+
+/-- `ticket = next(self._ticket_generator)`, then the send suspends (manager.py:124-128, 148-152, 172-176,
+289-293): nothing but the generator has changed. -/
+def beginSetup (s : State) (kind : Kind) : State :=
+  { s with gen := nextTicket s.cfg.initial s.gen, draws := s.draws + 1,
+           pending := s.pending ++ [{ rid := s.draws + 1, ticket := nextTicket s.cfg.initial s.gen, kind := kind,
+                                      outcome := none }] }
+
+/-- the timeout a request of that kind gets when it is registered: `request_timeout` is read in
+`_attach_request_timer_and_emit` (manager.py:324); the wishlist job reads its timeout once, before its first item
+(:283) — the value cannot change during a round, because `_on_wish_list_interval` cancels the round it interrupts
+(:413-418), so evaluating it at registration gives the same number. -/
+def kindTimeout (s : State) : Kind → Option Nat
+  | .wishlist => wishlistTimeout s
+  | _ => requestTimeout s.cfg
+
+/-- The send returned: create the `SearchRequest`, `self.requests[ticket] = request`, start its Timer when there is
+a timeout, emit `SearchRequestSentEvent` — one synchronous block (manager.py:129-134 + 321-331; 295-309). -/
+def register (s : State) (p : Setup) : State × List Obs :=
+  let timeout := kindTimeout s p.kind
+  let clob := (s.requests.filter (·.ticket = p.ticket)).map (fun r => Obs.clobber r.rid p.rid)
+  let others := s.requests.filter (·.ticket ≠ p.ticket)
+  let s1 := { s with requests := others ++ [{ rid := p.rid, ticket := p.ticket, kind := p.kind, timeout := timeout,
+                                              handle := none, results := 0 }] }
+  let s2 := match timeout with
+    | none => s1
+    | some T => timerStart s1 p.rid p.ticket T
+  (s2, clob ++ [Obs.sent s.now p.rid p.ticket])
+
+/-- `_wishlist_job` returned: `BackgroundTask.runner` sleeps for the interval (tasks.py:73-75) -/
+def roundEnd (s : State) : State :=
+  { s with wlRound := none, wlWoken := false,
+           wlNext := some (s.now + s.wlInterval.getD defaultWishlistInterval) }
+
+/-- `_wishlist_job` goes on with its next `m` enabled items (manager.py:288-309): all of them at once while the
+send does not suspend; otherwise the next ticket is drawn and the job is suspended in that item's send. -/
+def roundGo (m : Nat) (s : State) (o : List Obs) : State × List Obs :=
+  if s.gated then
+    match m with
+    | 0 => (roundEnd s, o)
+    | m + 1 => ({ beginSetup s .wishlist with wlRound := some m, wlNext := none, wlWoken := false }, o)
+  else
+    let r := wishlistRound m s o
+    (roundEnd r.1, r.2)
+
+/-- The owner of the set-up with draw number `rid` takes its next step: nothing if there is no such set-up or its
+send is still blocked; if the send returned, the request is registered (and the wishlist job goes on with its next
+item); if it raised or the owner was cancelled, the set-up is dropped — the exception leaves `search*` to its
+caller, or ends the wishlist task (tasks.py:70-71: `BackgroundTask.runner` does not catch). -/
+def completeOne (s : State) (rid : Nat) (o : List Obs) : State × List Obs :=
+  match s.pending.find? (·.rid = rid) with
+  | none => (s, o)
+  | some p =>
+    match p.outcome with
+    | none => (s, o)
+    | some ok =>
+      let s0 := { s with pending := s.pending.filter (·.rid ≠ p.rid) }
+      if ok then
+        let r := register s0 p
+        if p.kind = .wishlist then roundGo (s.wlRound.getD 0) r.1 (o ++ r.2) else (r.1, o ++ r.2)
+      else if p.kind = .wishlist then ({ s0 with wlRound := none, wlNext := none, wlWoken := false }, o)
+      else (s0, o)
+
+def completeAll : List Nat → State → List Obs → State × List Obs
+  | [], s, o => (s, o)
+  | rid :: rids, s, o => let r := completeOne s rid o; completeAll rids r.1 r.2
+
+/-- every set-up whose send has returned / raised goes on (those that are pending when the iteration begins, in the
+order in which their tickets were drawn) -/
+def completeSetups (s : State) (o : List Obs) : State × List Obs := completeAll (s.pending.map (·.rid)) s o
+
+/-! ### The loop runs until nothing is ready: `settle` -/
+
 /-- The loop runs the wishlist `BackgroundTask.runner` (tasks.py:65-75) when its sleep is over (or it was just
-started): one `_wishlist_job`, then `sleep(interval)`. The timer tasks created by the job take their first
-step in the next iteration of this same run. -/
+started): `_wishlist_job`, then `sleep(interval)`. -/
 def settleWishlist (s : State) (o : List Obs) : State × List Obs :=
   match s.wlNext with
   | none => (s, o)
-  | some w =>
-    if w ≤ s.now then
-      let r := wishlistRound s.cfg.items s o
-      ({ r.1 with wlNext := some (s.now + s.wlInterval.getD defaultWishlistInterval),
-                  tasks := r.1.tasks.map (startTask s.now) }, r.2)
-    else (s, o)
+  | some w => if w ≤ s.now then roundGo s.cfg.items s o else (s, o)
+
+/-- the timer tasks created during this run take their first step in a later iteration of the same run -/
+def startAll (s : State) : State := { s with tasks := s.tasks.map (startTask s.now) }
 
 def settle (s : State) : State × List Obs :=
   let r := settleTimers s
-  settleWishlist r.1 r.2
+  let r1 := completeSetups r.1 r.2
+  let r2 := settleWishlist r1.1 r1.2
+  (startAll r2.1, r2.2)
+
+/-! ### One loop iteration: `tick`
+
+Every task whose next step is scheduled takes exactly that step; every wake-up that is due is delivered (which
+schedules the sleeper's next step for the following iteration). -/
+
+/-- a task that does not end in this iteration: its first step registers the wake-up (`sleep(0)` just yields: the
+next step is scheduled at once, asyncio/tasks.py `sleep`), a due wake-up is delivered -/
+def wakeTask (now : Nat) (t : TTask) : TTask :=
+  match t.deadline with
+  | none => { t with deadline := some (now + t.timeout), woken := t.timeout == 0 }
+  | some d => if d ≤ now then { t with woken := true } else t
+
+/-- takes its last step in this iteration: `CancelledError` is thrown into it, or it wakes up after its sleep -/
+def endsNow (t : TTask) : Bool := t.cancelled || t.woken
+/-- … and that step runs the callback -/
+def firesNow (t : TTask) : Bool := !t.cancelled && t.woken
+
+def tickTimers (s : State) : State × List Obs :=
+  let r := fireAll (s.tasks.filter firesNow) s []
+  ({ r.1 with tasks := (s.tasks.filter (fun t => !endsNow t)).map (wakeTask s.now),
+              requests := r.1.requests.map (unsetDone (s.tasks.filter endsNow)) }, r.2)
+
+def tickWishlist (s : State) (o : List Obs) : State × List Obs :=
+  match s.wlNext with
+  | none => (s, o)
+  | some w =>
+    if s.wlWoken then roundGo s.cfg.items s o
+    else if w ≤ s.now then ({ s with wlWoken := true }, o)
+    else (s, o)
+
+def tick (s : State) : State × List Obs :=
+  let r := tickTimers s
+  let r1 := completeSetups r.1 r.2
+  tickWishlist r1.1 r1.2
+
+/-- `BackgroundTask.cancel()` of the wishlist task (tasks.py:52-60): a round in progress is abandoned where it is —
+`CancelledError` is thrown into the suspended send, whether or not the network has answered meanwhile. -/
+def cancelWishlist (s : State) : State :=
+  { s with wlNext := none, wlWoken := false, wlRound := none,
+           pending := s.pending.filter (·.kind ≠ .wishlist) }
+
+def setOutcome (ps : List Setup) (rid : Nat) (b : Bool) : List Setup :=
+  ps.map fun q => if q.rid = rid then { q with outcome := some b } else q
 
 def step (s : State) : Op → State × List Obs
-  | .search k => newRequest s k (requestTimeout s.cfg)
-  | .wlInterval n => ({ s with wlInterval := some n, wlNext := some s.now }, [])
-  | .serverClosing => ({ s with wlNext := none }, [])
+  | .search k => if s.gated then (beginSetup s k, []) else newRequest s k (requestTimeout s.cfg)
+  | .wlInterval n =>
+    -- `self._wishlist_task.cancel()`, new interval, `self._wishlist_task.start()`  (manager.py:413-418)
+    ({ cancelWishlist s with wlInterval := some n, wlNext := some s.now, wlWoken := true }, [])
+  | .serverClosing => (cancelWishlist s, [])
   | .remove tk =>
     match lookup s tk with
     | none => (s, [Obs.callerErr])
@@ -249,6 +406,18 @@ def step (s : State) : Op → State × List Obs
         (timerStart { s1 with requests := setTimeout s1.requests r.rid n } r.rid r.ticket n, [])
   | .jump d => ({ s with now := s.now + d }, [])
   | .settle => settle s
+  | .tick => tick s
+  | .gate b => ({ s with gated := b }, [])
+  | .sendDone tk ok =>
+    match s.pending.find? (fun p => p.ticket = tk && p.outcome.isNone) with
+    | none => (s, [Obs.noSetup])
+    | some p => ({ s with pending := setOutcome s.pending p.rid ok }, [])
+  | .cancelCall tk =>
+    -- `task.cancel()` on the caller suspended in the send: `CancelledError` at its next step, also when the
+    -- network has answered meanwhile (the task's pending cancellation wins over the result of the wait)
+    match s.pending.find? (fun p => p.ticket = tk && p.kind != .wishlist) with
+    | none => (s, [Obs.noSetup])
+    | some p => ({ s with pending := setOutcome s.pending p.rid false }, [])
 
 /-- run an op list, collecting the observations (oldest first) -/
 def run : State → List Op → State × List Obs
